@@ -10,7 +10,7 @@
     [pstep]. *)
 From Coq Require Import List Ascii String ZArith NArith Bool.
 From Shexer Require Import Lib.PyStr Model.Table Spec.ShexcGrammar.
-From Shexer Require Import Model.FreqInst Model.SerialShexc Model.Run Model.EntryPipe Model.C05Dom.
+From Shexer Require Import Model.FreqInst Model.SerialShexc Model.Run Model.RunCur Model.EntryPipe Model.C05Dom.
 Import ListNotations.
 
 Definition nat_str (n : nat) : str := dec_of_N (N.of_nat n).
@@ -89,7 +89,7 @@ Definition zcfg_of (c : rcfg) (ns : Tokens.nsdict) : sercfg :=
 
 Definition c05_dom_row (t : table) : list str :=
   let c := rcfg_of t in
-  match run_shapes BAlg c (thr_of t) (graph_of t) with
+  match run_shapes_cur BAlg c (thr_of t) (graph_of t) with
   | inl (ns, shapes) =>
     [Str "1"; bstr (C05_dom (zcfg_of c ns) shapes); bstr (refs_closedb shapes); bstr (labels_nodupb shapes)]
   | inr _ => [Str "0"; Str "0"; Str "0"; Str "0"]
